@@ -266,7 +266,7 @@ func runC19Case(cc c19Case, lines, expect, what *[]string) (string, string) {
 func runC19(ctx *runCtx) {
 	rep := ctx.rep
 	rep.Rule = "JSON values from a recursive generator (nesting <= 4, null/bool/integers/floats, strings with escapes, unicode and control characters, arrays, objects, 40-70 KB strings beyond the default read limit with the limit raised), written with wsjson.Write and observed by a raw peer (exactly one text message, payload = json.Marshal + newline, nothing after it) and read back with wsjson.Read from a fragmented message followed by another message (exactly one consumed); " +
-		"malformed and truncated documents into every kind of target (interface, RawMessage, map, struct, slice: error + Close 1007); values encoding/json cannot encode (error, nothing on the wire, connection usable); RawMessage and []byte targets checked after later reads and 16 concurrent connections sharing the buffer pool (aliasing); the Lean JSON codec compared on the integer fragment. distinct = case tuple"
+		"malformed and truncated documents into every kind of target (interface, RawMessage, map, struct, slice: error + Close 1007); values encoding/json cannot encode (error, nothing on the wire, connection usable); RawMessage and []byte targets checked after later reads and 16 concurrent connections sharing the buffer pool (aliasing); a document of more than a megabyte followed by small ones on the same and on a fresh connection; the Lean JSON codec compared on the integer fragment. distinct = case tuple"
 	if ctx.replay != "" {
 		var cc c19Case
 		if err := loadReplay(ctx.replay, &cc); err == nil && cc.Kind != "" {
@@ -348,6 +348,10 @@ func runC19(ctx *runCtx) {
 	if sh, w := jsonPoolScenario(4); sh != "" {
 		rep.violate(Violation{Kind: "property", Shape: sh, What: w, Replay: map[string]interface{}{"scenario": "json-pool"}})
 	}
+	if sh, w := guarded(90*time.Second, func() (string, string) { return bigJSONScenario(2) }); sh != "" {
+		rep.violate(Violation{Kind: "property", Shape: sh, What: w, Replay: map[string]interface{}{"scenario": "big-json", "rounds": 2}})
+	}
+	rep.eval("scenario/big-json")
 	rep.eval("scenario/json-pool")
 	askAndCompare(ctx, lines, expect, what, "json-model-vs-impl")
 	rep.sample(cases[0])
